@@ -58,6 +58,14 @@ class Events:
             return self.m.role_of_field(t[2])
         return None
 
+    def _is_list_param(self, pd):
+        f = self.fn
+        if f.is_lambda or f.record is None or f.access not in ('private', 'protected') or pd not in f.params:
+            return False
+        ix = f.params.index(pd)
+        ty = f.cptypes[ix] if ix < len(f.cptypes) else ''
+        return 'std::list<' in ty.replace('std::__cxx11::', 'std::') and not ty.lstrip().startswith('const ')
+
     def _scan(self):
         f = self.fn
         m = self.m
@@ -90,6 +98,24 @@ class Events:
                     else:
                         self.events.append(Ev('A.unknown', nid, (x,), f, dict(method=name)))
                         self.unknown.append((nid, 'std::list::%s on an adjacency list' % name))
+                # ---- a neighbour list handed to a non-public helper by reference: the events are parametric in the list and
+                #      are bound to A[x] where the helper is called (rules_pair.imported_events)
+                elif obj[0] == 'var' and rec == 'std::list' and self._is_list_param(obj[1]):
+                    x = ('listof', obj)
+                    ex = dict(owner=None, listparam=True)
+                    if name in LIST_PUSH:
+                        self.events.append(Ev('A.push', nid, (x, args[-1] if args else None), f, dict(ex, method=name)))
+                    elif name == 'remove':
+                        self.events.append(Ev('A.removeAll', nid, (x, args[0]), f, ex))
+                    elif name == 'erase':
+                        self.events.append(Ev('A.eraseIt', nid, (x, args[0]), f, dict(ex, argnode=n['args'][0], nargs=len(args))))
+                    elif name == 'clear':
+                        self.events.append(Ev('A.clear', nid, (x,), f, ex))
+                    elif name in LIST_READ:
+                        pass
+                    else:
+                        self.events.append(Ev('A.unknown', nid, (x,), f, dict(method=name)))
+                        self.unknown.append((nid, 'std::list::%s on a neighbour list parameter' % name))
                 # ---- adjacency vector itself
                 elif self.role(obj) == 'A' and rec == 'std::vector':
                     if name == 'resize':
